@@ -848,6 +848,61 @@ Lemma live_is_sink_domain : forall ops k,
   mem k (live (fst (run ops))) = true <-> sink_view (snd (run ops)) k <> None.
 Proof. intros. destruct (inv_run ops) as [HI _]. apply (iB _ _ _ _ _ HI). Qed.
 
+(* ------------------------------------------------------------------ the oracle accepts every model run *)
+Lemma oval_eqb_refl : forall x, oval_eqb x x = true.
+Proof. destruct x; simpl; auto. apply N.eqb_refl. Qed.
+
+Lemma item_ok_reflect : forall keys snt il sv it, item_ok snt il sv it -> ok_item keys snt il sv it = true.
+Proof.
+  intros keys snt il sv it H. destruct it as [u|s]; simpl in *.
+  - destruct (u_val u).
+    + rewrite H. destruct (sv (u_key u)); reflexivity.
+    + destruct H as [H|H].
+      * destruct (sv (u_key u)); [reflexivity|congruence].
+      * apply mem_In in H. rewrite H. apply orb_true_r.
+  - destruct s; auto. apply forallb_forall. intros k _. specialize (H k).
+    unfold good in H. unfold held_was_sent. destruct (sv k) as [v|]; [|reflexivity].
+    apply existsb_exists. exists (k, v). split; [exact H|]. unfold pair_eqb. simpl. rewrite !N.eqb_refl. reflexivity.
+Qed.
+
+Lemma items_ok_reflect : forall keys snt il its sv, items_ok snt il sv its -> ok_items keys snt il sv its = true.
+Proof.
+  induction its as [|it its IH]; simpl; intros sv H; [reflexivity|].
+  destruct H as [H1 H2]. rewrite (item_ok_reflect keys _ _ _ _ H1). simpl. apply IH. exact H2.
+Qed.
+
+Lemma ok_run_model : forall keys ops done,
+  ok_run keys done (sink_view (snd (run done))) ops (run_obs (fst (run done)) ops) = true.
+Proof.
+  induction ops as [|o ops IH]; intros done; [reflexivity|].
+  cbn [run_obs].
+  destruct (step (fst (run done)) o) as [st' its] eqn:Hstep.
+  cbn [ok_run].
+  assert (Hrun : run (done ++ [o]) = (st', snd (run done) ++ its)).
+  { rewrite run_snoc. unfold run_step. rewrite Hstep. reflexivity. }
+  assert (Hsv : sink_from (sink_view (snd (run done))) its = sink_view (snd (run (done ++ [o])))).
+  { rewrite Hrun. cbn [snd]. unfold sink_view. rewrite sink_from_app. reflexivity. }
+  rewrite Hsv. specialize (IH (done ++ [o])). rewrite Hrun in IH at 2. cbn [fst] in IH. rewrite IH.
+  rewrite andb_true_r.
+  destruct (inv_run done) as [HI _].
+  apply andb_true_iff. split; [apply andb_true_iff; split|].
+  - destruct o; simpl in Hstep; try (inversion Hstep; subst; reflexivity); reflexivity.
+  - destruct o; simpl in Hstep; try (inversion Hstep; subst; reflexivity).
+    destruct (pull n (fst (run done))) as [its0 st0] eqn:Hp. inversion Hstep; subst.
+    destruct (inv_pull _ _ _ _ _ _ _ _ HI Hp) as [Hok _].
+    unfold sent, ill. rewrite !fold_left_app. simpl. apply items_ok_reflect. exact Hok.
+  - destruct (drained st') eqn:Hd; [|reflexivity].
+    destruct (resync_pending (done ++ [o])) eqn:Hr; [reflexivity|]. simpl.
+    unfold views_agree. apply forallb_forall. intros k _.
+    assert (Hq0 : q (fst (run (done ++ [o]))) = []).
+    { rewrite Hrun. cbn [fst]. unfold drained in Hd. destruct (q st'); [reflexivity|discriminate]. }
+    rewrite (converges _ Hr Hq0 k). apply oval_eqb_refl.
+Qed.
+
+Lemma model_meets_spec : forall ops,
+  ok_case {| c_ops := ops; c_outs := run_obs init ops |} = true.
+Proof. intros. unfold ok_case. cbn [c_ops c_outs]. exact (ok_run_model _ ops []). Qed.
+
 (* ------------------------------------------------------------------ the hypotheses are satisfiable *)
 (* two resources delivered, connection restarts, the new connection re-sends k1 with a new value and does
    not have k2 any more, reports in-sync, consumer drains *)
